@@ -480,7 +480,8 @@ class PrettyPrinter:
         return comment
 
     def process_attribute_comment(self, comments: dict, key: str) -> str:
-        if key not in comments:
+        if key not in comments or not comments[key]:
+            # no comment (or an empty list of comments): nothing to add to the line
             comment = ""
         else:
             value = comments[key]
